@@ -21,14 +21,14 @@ Proof. exact exact_given_coverage. Qed.
 
 (* THE EXACTNESS CLAUSE IN FULL.  For every insert-only history of at most 2M+1 items with distinct ids (any vectors,
    any level assignment, any insertion order), mMax0 = 2M, M >= 1, every iteration order of the edge maps (any
-   permutation at every `range`), both selection modes, any efConstruction >= 0, every distance function, every query
+   permutation at every `range`), both selection modes with or without extendCandidates / keepPruned, any efConstruction >= 0, every distance function, every query
    and every k with n <= max(ef, k): Search returns exactly the k nearest items in exact order with their true
    distances — [found] below enumerates every item exactly once in ascending order of true distance and the answer is
    its first k entries.  (Level 0 stays strongly connected because no link is ever pruned within the bound and every
    new vertex is linked both ways with an earlier one — Hnsw/Small.v; a beam at least as wide as the index never stops
    early and never evicts — Hnsw/Cover.v.)  The 64-bit item counter is assumed not to have wrapped. *)
 Theorem C07_exact : forall dist ord c (ops : list (N * vec * meta * nat)) q k,
-  (forall es, Permutation (ord es) es) -> c_extend c = false ->
+  (forall es, Permutation (ord es) es) ->
   NoDup (map (fun '(id, _, _, _) => id) ops) ->
   (length ops <= 2 * c_m c + 1)%nat -> c_mmax0 c = (2 * c_m c)%nat -> (1 <= c_m c)%nat ->
   (length ops <= Nat.max (c_ef c) k)%nat -> N.of_nat (length ops) < two64 ->
@@ -39,9 +39,9 @@ Theorem C07_exact : forall dist ord c (ops : list (N * vec * meta * nat)) q k,
   (forall n, (n < length ops)%nat -> In n (map snd found)) /\
   (forall x, In x found -> fst x = dist q (vvec (vget s (snd x)))).
 Proof.
-  intros dist ord c ops q k OP NX ND LEN M0 M1 WIDE SMALL s found.
-  destruct (small_inv dist ord c OP NX ops ND LEN M0 M1) as (I & KS & L). fold s in I, KS, L.
-  pose proof (C07_exact_holds dist ord c OP NX OP ops q k ND LEN M0 M1 WIDE NX SMALL) as CV. fold s in CV.
+  intros dist ord c ops q k OP ND LEN M0 M1 WIDE SMALL s found.
+  destruct (small_inv dist ord c OP ops ND LEN M0 M1) as (I & KS & L). fold s in I, KS, L.
+  pose proof (C07_exact_holds dist ord c OP OP ops q k ND LEN M0 M1 WIDE SMALL) as CV. fold s in CV.
   destruct (exact_given_coverage dist ord c s q k I CV) as (A & B & C & D & E). fold found in A, B, C, D, E.
   assert (ALL : forall n, (n < length ops)%nat -> In n (map snd found)).
   { intros n Hn. apply D. apply (k_live s KS). rewrite L. exact Hn. }
@@ -54,7 +54,7 @@ Qed.
 
 (* the premises are satisfiable and the conclusion says something: three points on a line, M = 1, ef = 1, k = 3 *)
 Definition ex_dist (a b : vec) : Z := Z.abs (Z.of_N (hd 0 a) - Z.of_N (hd 0 b)).
-Definition ex_cfg : cfg := {| c_m := 1; c_mmax := 1; c_mmax0 := 2; c_ef := 1; c_efc := 2; c_heur := true; c_extend := false; c_keep := true |}.
+Definition ex_cfg : cfg := {| c_m := 1; c_mmax := 1; c_mmax0 := 2; c_ef := 1; c_efc := 2; c_heur := true; c_extend := true; c_keep := true |}.
 Definition ex_ops : list (N * vec * meta * nat) := [(7, [30], [], 0%nat); (8, [10], [], 1%nat); (9, [20], [], 0%nat)].
 Example C07_exact_nonvacuous :
   NoDup (map (fun '(id, _, _, _) => id) ex_ops) /\ (length ex_ops <= 2 * c_m ex_cfg + 1)%nat /\ c_mmax0 ex_cfg = (2 * c_m ex_cfg)%nat /\
